@@ -32,6 +32,20 @@ Decided:
          identity (it starts as a copy of it and no element is replaced or removed afterwards -- Middleware.__eq__ compares
          by type, so ``x in merged`` says nothing about identity); the chain is compiled from that list.  Otherwise a route
          carrying its own StatsMiddleware() counts on an instance nobody reads.
+Added in the fourth pass:
+  R19.a  the status key is the code itself, only rendered as text (repr / str / %r of ``getattr(x, 'status_code' | 'code', ..)``), not a
+         value computed from it; the table fetch is judged against next(): no fetch can be followed by next(), and -- only next() and
+         explicit raises being taken to raise -- none is reached without next() having run;
+  R19.b  a reservoir per (route, status): the factories of the table reset() builds construct (a class, a zero-argument lambda /
+         partial / function of the tree whose result is a construction) and never hand out an existing object; the report path
+         (get_stats_dict and what it calls inside the module, receivers typed as above) is read-only: no reset(), no removing / bulk
+         write on the tables, no call of a method that writes its receiver's state; the routing table of the stats application has a
+         route whose endpoint resets, and no route answering GET does;
+  R19.c  _total_count is written only by __init__ and add(); it starts as len() of the object bound to _data; the constructor puts
+         values into the store only through add(); one add() on the subclass is one activation of the base add: inherited, or an
+         override delegating once, and no method that activation dispatches to on the receiver (template-method hooks, resolved on
+         the subclass) enters add() again;
+  R19.d  Application.__init__ binds self.middlewares to a copy (the list the endpoints search cannot be edited from outside).
 Each group runs in isolation (a gap in one does not hide violations of the others).
 Declined: sampling statistics (uniformity); totals per status over histories.
 """
